@@ -75,3 +75,117 @@ def pairing(facts, f, push_pop):
                 seen[key] = (bi, st)
                 work.append(key)
     return n_push, viol
+
+
+# ------------------------------------------------------------------------------------------
+# effects before failure (R13-2)
+
+def returns_result(facts, t):
+    c = t.get("callee")
+    if not c:
+        return False
+    fid = facts.callee_id(c)
+    f = facts.fns.get(fid)
+    if f is None:
+        impls = facts.impls_of.get(c.get("id"), [])
+        if impls:
+            f = facts.fns[impls[0]]
+    if f is not None:
+        sig = f.get("sig", "")
+        return "-> std::result::Result<" in sig
+    return False
+
+
+def reach_from(succ, start):
+    seen, work = set(), list(succ.get(start, []))
+    while work:
+        x = work.pop()
+        if x in seen:
+            continue
+        seen.add(x)
+        work.extend(succ.get(x, []))
+    return seen
+
+
+def derives_from_call(facts, f, defs, op, call_bb, depth=0, seen=None):
+    """Does operand `op` derive (through moves, field projections, Try::branch) from the result of the call
+    terminating block call_bb?"""
+    seen = seen if seen is not None else set()
+    l = e1.local_of(op)
+    if l is None or depth > 10 or l in seen:
+        return False
+    seen.add(l)
+    for kind, bb, x in defs.get(l, []):
+        if kind == "call":
+            if bb == call_bb:
+                return True
+            n = facts.callee_name(x["callee"]) if x.get("callee") else ""
+            if n.endswith("::branch") or n.endswith("::map_err") or n.endswith("::from") or n.endswith("::into") \
+                    or n.endswith("::ok_or") or n.endswith("::ok_or_else") or n.endswith("::map"):
+                for a in x.get("args", []):
+                    if derives_from_call(facts, f, defs, a, call_bb, depth + 1, seen):
+                        return True
+        else:
+            for o in x.get("ops", []):
+                if derives_from_call(facts, f, defs, o, call_bb, depth + 1, seen):
+                    return True
+    return False
+
+
+def effects_before_failure(facts, f, may_mutate, fallible):
+    """Pairs (mutating call, later error source) on one CFG path of f.
+
+    may_mutate(term) -> name or None;  fallible(term) -> bool for calls returning Result into _0.
+    Error sources: `_0 = Err(..)`, `_0 = from_residual(..)`, `_0 = <fallible call>` (tail call)."""
+    blocks = facts.blocks(f)
+    succ = e1.cfg(facts, f)
+    defs = e1.def_sites(facts, f)
+    muts = []
+    for bi in succ:
+        t = blocks[bi]["term"]
+        if t["k"] == "Call":
+            n = may_mutate(t)
+            if n:
+                muts.append((bi, n, t))
+    if not muts:
+        return 0, []
+    errs = []
+    for bi in succ:
+        b = blocks[bi]
+        for st in b["stmts"]:
+            if st["ll"] == 0 and st.get("rv") == "Aggregate" and st.get("variant") == "Err":
+                errs.append((bi, "Err(..)", st.get("ln"), None))
+        t = b["term"]
+        if t["k"] == "Call" and t.get("destl") == 0 and t.get("callee"):
+            n = facts.callee_name(t["callee"])
+            if n.endswith("::from_residual"):
+                errs.append((bi, "?", t.get("ln"), t))
+            elif fallible(t):
+                errs.append((bi, "tail:" + n, t.get("ln"), t))
+    out = []
+    for mb, mname, mt in muts:
+        after = reach_from(succ, mb)
+        for eb, what, ln, et in errs:
+            if eb not in after and eb != mb:
+                continue
+            if eb == mb:
+                continue   # the mutating call itself is the tail call
+            if et is not None and what == "?":
+                # `?` applied to the result of the mutating call itself: failure *of* the call
+                if derives_from_call(facts, f, defs, et["args"][0], mb):
+                    continue
+            # which call failed? for `?`: the producer of the residual
+            failing = what
+            if et is not None and what == "?":
+                pc = None
+                for cand_bb in sorted(succ):
+                    tt = blocks[cand_bb]["term"]
+                    if tt["k"] == "Call" and tt.get("callee") and cand_bb != mb and \
+                            derives_from_call(facts, f, defs, et["args"][0], cand_bb):
+                        n2 = facts.callee_name(tt["callee"])
+                        if not (n2.endswith("::branch") or n2.endswith("::from_residual")):
+                            pc = n2
+                if pc:
+                    failing = "?" + pc
+            out.append({"mut_bb": mb, "mut": mname, "mut_line": mt.get("ln"), "err_bb": eb, "err": failing, "err_line": ln})
+    return len(muts), out
